@@ -170,6 +170,9 @@ def apply_watched(obj, ev):
     res, ret = apply(obj, ev)
     if c05.snapshot(obj) != snap:
         return None, {"kind": "operand-changed"}
+    if res is not None and c05.aliased(res, obj):
+        # a conversion yields an independent object (it may be worked on in place afterwards)
+        return None, {"kind": "result-shares-storage"}
     return res, ret
 
 
@@ -186,7 +189,7 @@ def record(stim: dict) -> dict:
         except Exception as e:
             res, ret = None, {"kind": "raised", "msg": f"{type(e).__name__}: {e}"[:200]}
         tr["ev"].append({"op": ev["op"], "args": ev["args"], "ret": ret})
-        if ret["kind"] in ("inexact", "raised", "operand-changed"):
+        if ret["kind"] in ("inexact", "raised", "operand-changed", "result-shares-storage"):
             break
         if ev["op"] not in QUERIES:
             obj = res
